@@ -80,8 +80,10 @@ class Table(SQLObject, DBMLObject):
     def delete_column(self, c: Union[Column, int]) -> Column:
         if isinstance(c, Column):
             if c in self.columns:
-                c.table = None
-                return self.columns.pop(self.columns.index(c))
+                # the column found by equality may be another object than the argument
+                result = self.columns.pop(self.columns.index(c))
+                result.table = None
+                return result
             else:
                 raise ColumnNotFoundError(f'Column {c} if missing in the table')
         elif isinstance(c, int):
@@ -104,8 +106,10 @@ class Table(SQLObject, DBMLObject):
     def delete_index(self, i: Union[Index, int]) -> Index:
         if isinstance(i, Index):
             if i in self.indexes:
-                i.table = None
-                return self.indexes.pop(self.indexes.index(i))
+                # the index found by equality may be another object than the argument
+                result = self.indexes.pop(self.indexes.index(i))
+                result.table = None
+                return result
             else:
                 raise IndexNotFoundError(f'Index {i} if missing in the table')
         elif isinstance(i, int):
